@@ -3,6 +3,7 @@
 //! the text protocol documented in `lean/CallbagModel/Script.lean`.
 #![allow(dead_code, clippy::type_complexity)]
 mod ivl;
+mod pipe;
 mod sched;
 mod seq;
 
@@ -14,6 +15,7 @@ fn main() {
         Some("sched-all") => sched::sched_all(args.get(2).and_then(|s| s.parse().ok()).unwrap_or(usize::MAX)),
         Some("sched-run") => sched::sched_run(),
         Some("interval") => ivl::replay_stdin(),
+        Some("pipelines") => pipe::replay_stdin(),
         _ => {
             eprintln!("usage: cbharness replay   (stdin: `inst | script [| ...]`, stdout: `inst | script | recorded trace`)");
             std::process::exit(2);
